@@ -3,6 +3,7 @@ package main
 import (
 	"encoding/json"
 	"fmt"
+	"github.com/Vedant9500/WTF/internal/embedding"
 	"go/ast"
 	"go/parser"
 	"go/token"
@@ -14,6 +15,7 @@ import (
 	"sync"
 	"sync/atomic"
 	"time"
+	"unicode"
 
 	"github.com/Vedant9500/WTF/internal/cache"
 	"github.com/Vedant9500/WTF/internal/database"
@@ -112,6 +114,10 @@ func (w *c11Walker) walkStmts(typ, method string, stmts []ast.Stmt, recv string,
 		case *ast.ExprStmt:
 			if m := lockCall(st.X, recv); m != "" {
 				*mode = m
+				if m != "none" {
+					// an acquisition: a method whose body is ONE critical section has exactly one of these (helpers inlined)
+					w.out = append(w.out, c11Access{Type: typ, Method: method, Field: "<acquire>", Mode: m})
+				}
 				continue
 			}
 			w.expr(typ, method, st.X, recv, *mode, guard, false, depth, seen)
@@ -352,6 +358,51 @@ type c11Stress struct {
 	Misses          int64  `json:"misses"`
 	HitMissSum      int64  `json:"hit_miss_sum"`
 	HitMissExpected int64  `json:"hit_miss_expected"`
+	LostLive        int64  `json:"lost_live"`        // entries stored during a sweep, inside their lifetime, that were gone afterwards
+	SweepConclusive int64  `json:"sweep_conclusive"` // re-created entries looked up while still young
+}
+
+// c11SweepReinsert: many entries expire together; one goroutine sweeps while another looks the youngest keys up (miss) and stores
+// them again. No Delete / Clear happens and the capacity is never reached: in every one-at-a-time order the sweep runs before a
+// Put (a fresh entry is created afterwards) or after it (the fresh entry is not expired and is left alone), so the final Get hits.
+func c11SweepReinsert() (lost, conclusive int64) {
+	const n, hot, rounds = 20000, 48, 3
+	ttl, settle := 400*time.Millisecond, 450*time.Millisecond
+	for round := 0; round < rounds; round++ {
+		c := cache.NewLRUCache(2*n, ttl)
+		for i := 0; i < n; i++ {
+			c.Put(fmt.Sprintf("k%06d", i), i)
+		}
+		time.Sleep(settle)
+		var wg sync.WaitGroup
+		wg.Add(1)
+		go func() {
+			defer wg.Done()
+			c.CleanupExpired()
+		}()
+		deadline := time.Now().Add(3 * time.Second)
+		for c.Size() == n && time.Now().Before(deadline) {
+		}
+		putAt := make([]time.Time, hot)
+		for j := 0; j < hot; j++ {
+			key := fmt.Sprintf("k%06d", n-1-j)
+			c.Get(key)
+			c.Put(key, "fresh")
+			putAt[j] = time.Now()
+		}
+		wg.Wait()
+		for j := 0; j < hot; j++ {
+			v, ok := c.Get(fmt.Sprintf("k%06d", n-1-j))
+			if time.Since(putAt[j]) > ttl/2 {
+				continue // the machine stalled: the entry may be near its expiry
+			}
+			conclusive++
+			if !ok || v != "fresh" {
+				lost++
+			}
+		}
+	}
+	return
 }
 
 func c11RunStress(r *rand.Rand, dir string) c11Stress {
@@ -420,6 +471,55 @@ func c11RunStress(r *rand.Rand, dir string) c11Stress {
 	}
 	wg.Wait()
 	st.SearchesRec = monitored.Load()
+	st.LostLive, st.SweepConclusive = c11SweepReinsert()
+	// the same searches with a semantic index attached (word vectors for every query word, one vector per command):
+	// each concurrent answer must again be the answer of the search run alone
+	func() {
+		edb := database.VerifFresh(db.Commands)
+		const d = 6
+		vec := func() []float32 {
+			v := make([]float32, d)
+			for i := range v {
+				v[i] = float32(r.NormFloat64())
+			}
+			return v
+		}
+		idx := &embedding.Index{Dimension: d, WordVectors: map[string][]float32{}}
+		for _, rq := range reqs {
+			for _, w := range strings.FieldsFunc(strings.ToLower(rq.q), func(c rune) bool { return !unicode.IsLetter(c) && !unicode.IsNumber(c) }) {
+				if _, ok := idx.WordVectors[w]; !ok {
+					idx.WordVectors[w] = vec()
+				}
+			}
+		}
+		for range edb.Commands {
+			idx.CmdEmbeddings = append(idx.CmdEmbeddings, vec())
+		}
+		edb.VerifSetEmbeddingIndex(idx)
+		wants := make([][]eRes, len(reqs))
+		for i, rq := range reqs {
+			wants[i] = projectResults(edb, edb.SearchUniversal(rq.q, rq.o))
+		}
+		var ewg sync.WaitGroup
+		for g := 0; g < 8; g++ {
+			ewg.Add(1)
+			go func(g int) {
+				defer ewg.Done()
+				rr := rand.New(rand.NewSource(int64(g) + 101))
+				for i := 0; i < 120; i++ {
+					k := rr.Intn(len(reqs))
+					calls.Add(1)
+					p := projectResults(edb, edb.SearchUniversal(reqs[k].q, reqs[k].o))
+					if fmt.Sprint(p) != fmt.Sprint(wants[k]) {
+						if bad.Add(1) == 1 {
+							firstBad.Store(fmt.Sprintf("semantic index attached: q=%q got=%v want=%v", reqs[k].q, p, wants[k]))
+						}
+					}
+				}
+			}(g)
+		}
+		ewg.Wait()
+	}()
 	// first use: goroutines released together on a FRESH collector / monitored database, many rounds
 	// (registration of a metric identity races with its first increments)
 	// expected answers of NLP searches, for the rounds on freshly built databases below
